@@ -47,7 +47,7 @@ import (
 
 // ---------------------------------------------------------------- replayable input
 type opSpec struct {
-	Op string `json:"op"` // read write handshake state deadline closewrite close sleep
+	Op string `json:"op"` // read write handshake state deadline closewrite close sleep keyupdate
 	N  int    `json:"n,omitempty"`
 	D  int    `json:"d,omitempty"` // sleep: microseconds; deadline: milliseconds from now (0 = clear)
 }
@@ -65,6 +65,7 @@ type scenario struct {
 	Procs    int     `json:"procs"`
 	LimitMs  int     `json:"limit_ms"`
 	CloseEnd int     `json:"close_end"` // which raw transport end the harness closes at the end
+	Buffered bool     `json:"buffered,omitempty"` // transport with unbounded buffering instead of net.Pipe
 	Events   []string `json:"events,omitempty"` // activecall script
 }
 
@@ -96,9 +97,138 @@ func setup() {
 	})
 }
 
+// bufPipe is an in-memory duplex transport with unbounded buffering (a Write never waits
+// for the peer's Read, like a socket with room in its buffers).  Used where the synchronous
+// net.Pipe would turn an error path that sends an alert into a four-way wait.
+type bufHalf struct {
+	mu     sync.Mutex
+	cond   *sync.Cond
+	buf    []byte
+	closed bool
+}
+type bufConn struct {
+	rd, wr     *bufHalf
+	mu         sync.Mutex
+	rdl, wdl   time.Time
+	closedSelf bool
+}
+type bufAddr struct{}
+
+func (bufAddr) Network() string { return "buf" }
+func (bufAddr) String() string  { return "buf" }
+
+type timeoutErr struct{}
+
+func (timeoutErr) Error() string   { return "i/o timeout" }
+func (timeoutErr) Timeout() bool   { return true }
+func (timeoutErr) Temporary() bool { return true }
+
+func bufPipe() (net.Conn, net.Conn) {
+	a, b := &bufHalf{}, &bufHalf{}
+	a.cond, b.cond = sync.NewCond(&a.mu), sync.NewCond(&b.mu)
+	return &bufConn{rd: a, wr: b}, &bufConn{rd: b, wr: a}
+}
+func (c *bufConn) Read(p []byte) (int, error) {
+	c.mu.Lock()
+	dl := c.rdl
+	c.mu.Unlock()
+	h := c.rd
+	h.mu.Lock()
+	defer h.mu.Unlock()
+	var timer *time.Timer
+	if !dl.IsZero() {
+		timer = time.AfterFunc(time.Until(dl), func() { h.mu.Lock(); h.cond.Broadcast(); h.mu.Unlock() })
+		defer timer.Stop()
+	}
+	for len(h.buf) == 0 {
+		if h.closed {
+			return 0, io.EOF
+		}
+		c.mu.Lock()
+		self := c.closedSelf
+		c.mu.Unlock()
+		if self {
+			return 0, io.ErrClosedPipe
+		}
+		if !dl.IsZero() && !time.Now().Before(dl) {
+			return 0, timeoutErr{}
+		}
+		h.cond.Wait()
+	}
+	n := copy(p, h.buf)
+	h.buf = h.buf[n:]
+	return n, nil
+}
+func (c *bufConn) Write(p []byte) (int, error) {
+	c.mu.Lock()
+	dl, self := c.wdl, c.closedSelf
+	c.mu.Unlock()
+	if self {
+		return 0, io.ErrClosedPipe
+	}
+	if !dl.IsZero() && !time.Now().Before(dl) {
+		return 0, timeoutErr{}
+	}
+	h := c.wr
+	h.mu.Lock()
+	defer h.mu.Unlock()
+	if h.closed {
+		return 0, io.ErrClosedPipe
+	}
+	h.buf = append(h.buf, p...)
+	h.cond.Broadcast()
+	return len(p), nil
+}
+func (c *bufConn) Close() error {
+	c.mu.Lock()
+	c.closedSelf = true
+	c.mu.Unlock()
+	for _, h := range []*bufHalf{c.rd, c.wr} {
+		h.mu.Lock()
+		h.closed = true
+		h.cond.Broadcast()
+		h.mu.Unlock()
+	}
+	return nil
+}
+func (c *bufConn) LocalAddr() net.Addr  { return bufAddr{} }
+func (c *bufConn) RemoteAddr() net.Addr { return bufAddr{} }
+func (c *bufConn) SetDeadline(t time.Time) error {
+	c.mu.Lock()
+	c.rdl, c.wdl = t, t
+	c.mu.Unlock()
+	c.rd.mu.Lock()
+	c.rd.cond.Broadcast()
+	c.rd.mu.Unlock()
+	return nil
+}
+func (c *bufConn) SetReadDeadline(t time.Time) error {
+	c.mu.Lock()
+	c.rdl = t
+	c.mu.Unlock()
+	c.rd.mu.Lock()
+	c.rd.cond.Broadcast()
+	c.rd.mu.Unlock()
+	return nil
+}
+func (c *bufConn) SetWriteDeadline(t time.Time) error {
+	c.mu.Lock()
+	c.wdl = t
+	c.mu.Unlock()
+	return nil
+}
+
 func pair(vers uint16) (cli, srv *tls.Conn, rawC, rawS net.Conn) {
+	return pairOn(vers, false)
+}
+
+func pairOn(vers uint16, buffered bool) (cli, srv *tls.Conn, rawC, rawS net.Conn) {
 	setup()
-	rawC, rawS = net.Pipe()
+	if buffered {
+		rawC, rawS = bufPipe()
+	} else {
+		rawC, rawS = net.Pipe()
+	}
 	cc := &tls.Config{InsecureSkipVerify: true, ServerName: "c34.example", MinVersion: vers, MaxVersion: vers}
 	sc := &tls.Config{Certificates: []tls.Certificate{srvCert}, MinVersion: vers, MaxVersion: vers}
 	return tls.Client(rawC, cc), tls.Server(rawS, sc), rawC, rawS
@@ -148,7 +278,7 @@ func runStress(sc *scenario) *result {
 	if sc.Procs > 0 {
 		defer runtime.GOMAXPROCS(runtime.GOMAXPROCS(sc.Procs))
 	}
-	cli, srv, rawC, rawS := pair(sc.Vers)
+	cli, srv, rawC, rawS := pairOn(sc.Vers, sc.Buffered)
 	conns := [2]*tls.Conn{cli, srv}
 	res := &result{}
 	var rmu sync.Mutex
@@ -158,6 +288,8 @@ func runStress(sc *scenario) *result {
 	}
 	var writers, all sync.WaitGroup
 	var running int64
+	var shuttingDown int32
+	abort := make(chan string, 64) // clean runs: a Read failed although nobody closed anything
 	names := make([]string, len(sc.Actors))
 	state := make([]atomic.Value, len(sc.Actors))
 	for ai := range sc.Actors {
@@ -217,6 +349,12 @@ func runStress(sc *scenario) *result {
 							l.mu.Unlock()
 						}
 						if err != nil {
+							if sc.Clean && atomic.LoadInt32(&shuttingDown) == 0 {
+								select {
+								case abort <- fmt.Sprintf("%s: Read failed with %q", names[ai], err.Error()):
+								default:
+								}
+							}
 							return
 						}
 					case "write":
@@ -232,6 +370,12 @@ func runStress(sc *scenario) *result {
 							seq++
 						} else {
 							return // a failed Write may have sent part of the message: this writer stops
+						}
+					case "keyupdate":
+						// ask the peer to update its keys too (TLS 1.3): it must answer with a KeyUpdate and
+						// switch its write key in one step with respect to its concurrent Writes
+						if c.Handshake() == nil {
+							tls.VerifSendKeyUpdate(c, true)
 						}
 					case "handshake":
 						c.Handshake()
@@ -270,12 +414,19 @@ func runStress(sc *scenario) *result {
 		limit = 60 * time.Second // a clean run has nothing that could stall it
 	}
 	timedOut := false
+	broken := ""
 	select {
 	case <-wdone:
+		select {
+		case broken = <-abort:
+		default:
+		}
+	case broken = <-abort:
 	case <-time.After(limit):
 		timedOut = true
 	}
-	if sc.Clean && !timedOut {
+	atomic.StoreInt32(&shuttingDown, 1)
+	if sc.Clean && !timedOut && broken == "" {
 		// orderly shutdown: readers see close_notify / EOF
 		cli.Close()
 		srv.Close()
@@ -311,6 +462,10 @@ func runStress(sc *scenario) *result {
 	}
 	if len(res.blocked) > 0 {
 		res.viol, res.desc = "blocked-after-close", "goroutines still blocked 45 s after the transport was closed: "+strings.Join(res.blocked, "; ")
+		return res
+	}
+	if broken != "" {
+		res.viol, res.desc = "stream-broken", "clean run (no deadlines, no Close, no CloseWrite): "+broken
 		return res
 	}
 	if sc.Clean && timedOut {
@@ -782,6 +937,35 @@ func genStress(c *vh.Ctx, clean bool) *scenario {
 	return sc
 }
 
+// TLS 1.3: end A keeps asking for key updates while end B has one reader and 4-8 writers queued on c.out.
+// B's reply KeyUpdate and its switch to the next write key must be one step for B's writers.
+func genKeyUpdate(c *vh.Ctx) *scenario {
+	sc := &scenario{Kind: "stress", Clean: true, Mode: "stream", Vers: tls.VersionTLS13, LimitMs: 200, CloseEnd: c.Intn(2), Buffered: true}
+	sc.Procs = []int{0, 2, 4, 8}[c.Intn(4)]
+	a, b := c.Intn(2), 0
+	b = 1 - a
+	// end A: a reader, and one goroutine alternating KeyUpdate requests with small writes
+	sc.Actors = append(sc.Actors, actor{End: a, Loop: true, Ops: []opSpec{{Op: "read", N: 20000}}})
+	ku := actor{End: a}
+	for i := 0; i < 12+c.Intn(12); i++ {
+		ku.Ops = append(ku.Ops, opSpec{Op: "keyupdate"}, opSpec{Op: "write", N: c.Intn(40)})
+		if c.Intn(3) == 0 {
+			ku.Ops = append(ku.Ops, opSpec{Op: "sleep", D: c.Intn(400)})
+		}
+	}
+	sc.Actors = append(sc.Actors, ku)
+	// end B: one reader, 4-8 writers
+	sc.Actors = append(sc.Actors, actor{End: b, Loop: true, Ops: []opSpec{{Op: "read", N: 4096}}})
+	for w := 0; w < 4+c.Intn(5); w++ {
+		wr := actor{End: b}
+		for j := 0; j < 15+c.Intn(15); j++ {
+			wr.Ops = append(wr.Ops, opSpec{Op: "write", N: []int{1, 30, 300, 3000, 17000}[c.Intn(5)]})
+		}
+		sc.Actors = append(sc.Actors, wr)
+	}
+	return sc
+}
+
 func runCase(c *vh.Ctx, sc *scenario) {
 	switch sc.Kind {
 	case "activecall":
@@ -923,12 +1107,27 @@ func gen(c *vh.Ctx) {
 			runCase(c, &scenario{Kind: "configlock", Vers: v})
 		}
 	}
-	n := 36
+	nku := 8
+	if c.Thorough {
+		nku = 300
+	}
+	if c.Race {
+		nku = 4
+		if c.Thorough {
+			nku = 100
+		}
+	}
+	for i := 0; i < nku && c.NumViolations() <= 3; i++ {
+		sc := genKeyUpdate(c)
+		c.Stat("keyupdate_runs", 1)
+		runCase(c, sc)
+	}
+	n := 30
 	if c.Thorough {
 		n = 3000
 	}
 	if c.Race {
-		n = 30
+		n = 26
 		if c.Thorough {
 			n = 1200
 		}
